@@ -15,6 +15,7 @@ import (
 	"sort"
 	"strings"
 	"testing"
+	"time"
 
 	"github.com/regclient/regclient"
 	"github.com/regclient/regclient/internal/verif/audit"
@@ -24,6 +25,7 @@ import (
 	"github.com/regclient/regclient/internal/verif/qsched"
 	"github.com/regclient/regclient/internal/verif/rcenv"
 	"github.com/regclient/regclient/scheme"
+	"github.com/regclient/regclient/scheme/reg"
 	"github.com/regclient/regclient/types/descriptor"
 	"github.com/regclient/regclient/types/ref"
 )
@@ -35,12 +37,18 @@ type Scen struct {
 	Feat     string `json:"feat"` // full, noref (no referrers API), nohead (no digest header), novalidate
 	Pre      string `json:"pre"`  // empty, complete, stale, mask:<bits>
 	ByDigest bool   `json:"by_digest,omitempty"`
+	// Retry: the client's manifest cache is on (as regctl configures it) and a copy that failed is
+	// repeated once through the same client, without faults
+	Retry bool `json:"retry,omitempty"`
 }
 
 func (s Scen) String() string {
 	d := ""
 	if s.ByDigest {
 		d = " by-digest"
+	}
+	if s.Retry {
+		d += " cache+retry"
 	}
 	return fmt.Sprintf("%s %s opt=%s feat=%s pre=%s%s", s.Graph, s.Pair, s.Opt, s.Feat, s.Pre, d)
 }
@@ -106,6 +114,8 @@ type Exec struct {
 	nreq     int
 	tmp      string
 	Faults []string
+	Second bool // the repeated copy of a Retry scenario is running (no faults are offered)
+	Err1   error
 	// for C04: sequence number of the first request that found the requested reference moved
 	// (0 = not seen moved at any request), and of the last injected fault
 	TagAt     int
@@ -377,6 +387,9 @@ func Run(t *testing.T, c *explore.Ctx, sc Scen, p Params, scratchRoot string) (*
 		if os.Getenv("VERIF_TRACE") != "" {
 			ro.Slog = slog.New(slog.NewTextHandler(os.Stdout, &slog.HandlerOptions{Level: slog.LevelDebug}))
 		}
+		if sc.Retry {
+			ro.RegOpts = []reg.Opts{reg.WithCache(5*time.Minute, 500)}
+		}
 		rc := rcenv.New(x.Net, hosts, ro)
 		ctx, cancel := context.WithCancel(context.Background())
 		x.Cancel = cancel
@@ -385,6 +398,12 @@ func Run(t *testing.T, c *explore.Ctx, sc Scen, p Params, scratchRoot string) (*
 			x.Err = rc.ImageCopy(ctx, x.Src, x.Tgt, copyOpts(sc)...)
 			// closing releases layout locks and runs GC if enabled (default off)
 			_ = rc.Close(ctx, x.Tgt)
+			if sc.Retry && x.Err != nil {
+				x.Err1 = x.Err
+				x.Second = true
+				x.Err = rc.ImageCopy(context.Background(), x.Src, x.Tgt, copyOpts(sc)...)
+				_ = rc.Close(context.Background(), x.Tgt)
+			}
 		}
 		if p.NoSched {
 			body()
